@@ -133,6 +133,8 @@ func i4Flag(f *core.Func, rs *ast.RangeStmt) (bool, string) {
 	elems := elementVars(info, rs)
 	ok, why := true, ""
 	sawExit := false
+	existsSig := ""
+	var keyedExits []ast.Node
 	ast.Inspect(rs.Body, func(n ast.Node) bool {
 		switch x := n.(type) {
 		case *ast.FuncLit:
@@ -157,8 +159,35 @@ func i4Flag(f *core.Func, rs *ast.RangeStmt) (bool, string) {
 					keyed = true
 				}
 			}
+			if keyed {
+				keyedExits = append(keyedExits, x)
+			}
 			if !keyed {
-				ok, why = false, "the loop is left (`"+core.ExprStr(x)+"`) on a condition other than `key == <loop-invariant>`: which element triggers the exit depends on the iteration order"
+				// "exists" loop: leaving on any element-dependent condition is fine when what the exit yields does
+				// not depend on the element: a `return` of constants (the same at every such exit) or a plain `break`
+				// (the assignments of the loop are checked to be constants below)
+				sig := ""
+				switch y := x.(type) {
+				case *ast.ReturnStmt:
+					sig = "return"
+					for _, res := range y.Results {
+						tv := info.Types[res]
+						if tv.Value == nil {
+							sig = ""
+							break
+						}
+						sig += " " + tv.Value.ExactString()
+					}
+				case *ast.BranchStmt:
+					if y.Tok == token.BREAK && y.Label == nil {
+						sig = "break"
+					}
+				}
+				if sig == "" || (existsSig != "" && existsSig != sig) {
+					ok, why = false, "the loop is left (`"+core.ExprStr(x)+"`) on a condition other than `key == <loop-invariant>` with an element-dependent (or differing) result: which element triggers the exit depends on the iteration order"
+				} else {
+					existsSig = sig
+				}
 			}
 		case *ast.AssignStmt:
 			if x.Tok == token.DEFINE {
@@ -194,6 +223,28 @@ func i4Flag(f *core.Func, rs *ast.RangeStmt) (bool, string) {
 		return true
 	})
 	_ = sawExit
+	// an "exists" exit next to a unique-key exit is only order-independent when both yield the same constants
+	if ok && existsSig != "" {
+		for _, x := range keyedExits {
+			sig := ""
+			if y, isRet := x.(*ast.ReturnStmt); isRet {
+				sig = "return"
+				for _, res := range y.Results {
+					tv := info.Types[res]
+					if tv.Value == nil {
+						sig = "?"
+						break
+					}
+					sig += " " + tv.Value.ExactString()
+				}
+			} else if b, isB := x.(*ast.BranchStmt); isB && b.Tok == token.BREAK && b.Label == nil {
+				sig = "break"
+			}
+			if sig != existsSig {
+				ok, why = false, "the loop is left both for the unique key (`"+core.ExprStr(x)+"`) and for any matching element ("+existsSig+") with different results: whichever the map yields first decides"
+			}
+		}
+	}
 	return ok, why
 }
 
@@ -202,8 +253,37 @@ func i5Independent(f *core.Func, rs *ast.RangeStmt) (bool, string) {
 	info := f.Info()
 	elems := elementVars(info, rs)
 	ok, why := true, ""
+	// `firstErr = err; break` (err being the error of this element's own effect) is the error return
+	// of the loop, spelled for a callback: both statements are accepted as one exit
+	exitPair := map[ast.Node]bool{}
+	ast.Inspect(rs.Body, func(n ast.Node) bool {
+		var list []ast.Stmt
+		switch x := n.(type) {
+		case *ast.FuncLit:
+			return false
+		case *ast.BlockStmt:
+			list = x.List
+		case *ast.CaseClause:
+			list = x.Body
+		}
+		for i := 0; i+1 < len(list); i++ {
+			as, isAs := list[i].(*ast.AssignStmt)
+			br, isBr := list[i+1].(*ast.BranchStmt)
+			if !isAs || !isBr || br.Tok != token.BREAK || br.Label != nil || as.Tok != token.ASSIGN || len(as.Lhs) != 1 || len(as.Rhs) != 1 {
+				continue
+			}
+			lv, rv := core.VarOf(info, as.Lhs[0]), core.VarOf(info, as.Rhs[0])
+			if lv != nil && rv != nil && isErrorType(lv.Type()) && isErrorType(rv.Type()) && rs.Body.Pos() <= rv.Pos() && rv.Pos() < rs.Body.End() {
+				exitPair[as], exitPair[br] = true, true
+			}
+		}
+		return true
+	})
 	// variables written in the body that are declared outside the loop
 	ast.Inspect(rs.Body, func(n ast.Node) bool {
+		if exitPair[n] {
+			return false
+		}
 		switch x := n.(type) {
 		case *ast.FuncLit:
 			return false
@@ -255,7 +335,7 @@ func i5Independent(f *core.Func, rs *ast.RangeStmt) (bool, string) {
 			// writing/removing the element's own file. Anything else (rendering into a shared
 			// buffer, invoking generators, logging into an output) is order-sensitive.
 			switch {
-			case name == "os.RemoveAll" || name == "os.Remove" || strings.HasSuffix(name, "genfile).WriteToFile") || strings.HasSuffix(name, "genfile).Filename"):
+			case name == "os.RemoveAll" || name == "os.Remove" || strings.HasSuffix(name, ").WriteToFile") || strings.HasSuffix(name, ").Filename"):
 				if !core.MentionsAny(info, x, elems) {
 					ok, why = false, "effect `"+core.ExprStr(x)+"` does not depend on the element: it is repeated per element in map order"
 				}
@@ -319,11 +399,11 @@ var a2Exceptions = map[string]a2Exception{
 				continue
 			}
 			// only the forwarding method of the context may call it
-			if cs.In.Root().Name != "(*gengoCtx).LocateInPackage" {
+			if cs.In.Root().Name != "(*"+ctxTypeName(p)+").LocateInPackage" {
 				return false, "LocateInPackage is consumed by " + cs.In.QName()
 			}
 		}
-		fw := p.FuncByName("pkg/gengo", "(*gengoCtx).LocateInPackage")
+		fw := ctxMethod(p, "LocateInPackage")
 		if fw != nil {
 			for _, cs := range allCalls(p) {
 				if core.CalleeFunc(cs.In.Info(), cs.Call) == fw.Obj() {
@@ -415,7 +495,7 @@ func sideTimeOnlyLogger(p *core.Program, f *core.Func, os OrderSource) (bool, st
 	for _, ff := range p.Funcs() {
 		ast.Inspect(ff.Body, func(n ast.Node) bool {
 			if sel, isSel := n.(*ast.SelectorExpr); isSel {
-				if fld := core.FieldOf(ff.Info(), sel); fld != nil && fld.Name() == "startedAt" && !strings.HasPrefix(ff.Root().Name, "(*logger).") {
+				if fld := core.FieldOf(ff.Info(), sel); isRole(p, fld, "logger.started") && !strings.HasPrefix(ff.Root().Name, "(*logger).") {
 					ok = false
 				}
 			}
@@ -432,9 +512,13 @@ func runC04(p *core.Program, r *core.Report) {
 	// replacing a hand-written collect-and-sort by slices.Sorted(maps.Keys()) keeps a source (I2);
 	// flattening a loop over a set into a membership test removes one: the floor only guards against a blind enumerator
 	r.Floor("A2", 14)
-	for _, f := range p.Funcs() {
-		for _, os := range orderSources(f) {
-			c04Classify(p, r, f, os)
+	// over flattened units: a sync.Map.Range callback is shown as the range loop it desugars from,
+	// private helpers are seen inside their callers
+	for _, pkg := range p.InScope() {
+		for _, f := range pkgUnits(p, core.RelPkg(pkg.PkgPath)) {
+			for _, os := range orderSources(f) {
+				c04Classify(p, r, f, os)
+			}
 		}
 	}
 	c04R2(p, r)
